@@ -103,7 +103,10 @@ func (s ints) Operation() (interface{}, error)  { return []int(s), nil }
 func (s ints) Slice(i, j int) concurrent.Mapper { return s[i:j] }
 func (s ints) Len() int                         { return len(s) }
 
-func mapper(size, threads, maxChunk int) func() vrt.Run {
+func mapper(size, threads, maxChunk int) func() vrt.Run { return mapDriver(size, threads, maxChunk, false) }
+
+// mapDriver: Map called directly, or through PromiseMap and one Wait on its promise.
+func mapDriver(size, threads, maxChunk int, viaPromise bool) func() vrt.Run {
 	return func() vrt.Run {
 		var res []interface{}
 		var err error
@@ -111,6 +114,12 @@ func mapper(size, threads, maxChunk int) func() vrt.Run {
 			set := make(ints, size)
 			for i := range set {
 				set[i] = i
+			}
+			if viaPromise {
+				r := <-concurrent.PromiseMap(set, threads, maxChunk).Wait()
+				res, _ = r.Value.([]interface{})
+				err = r.Err
+				return
 			}
 			res, err = concurrent.Map(set, threads, maxChunk)
 		}, Verdict: func(r *vrt.Result) (string, string, string) {
@@ -250,9 +259,9 @@ func drivers(quick bool) []conc.Driver {
 		ds = append(ds, conc.Driver{Name: name, Cfg: cfg, Mk: mk, Fallback: []int{0, 1, 2, 3, 4, 5, 6}})
 	}
 	type pc struct{ w, c, b, n, e int }
-	pcs := []pc{{2, 2, 2, 0, -1}, {2, 2, 2, 1, -1}, {1, 0, 0, 2, -1}, {2, 1, 0, 3, 1}, {2, 0, 1, 2, 0}}
+	pcs := []pc{{2, 2, 2, 0, -1}, {2, 2, 2, 1, -1}, {1, 0, 0, 2, -1}, {2, 1, 0, 3, 1}, {2, 0, 1, 2, 0}, {3, 1, 1, 0, -1}}
 	if !quick {
-		pcs = append(pcs, pc{2, 2, 2, 2, -1}, pc{3, 1, 1, 0, -1}, pc{3, 1, 1, 1, -1}, pc{3, 3, 3, 3, -1}, pc{4, 0, 0, 0, -1}, pc{4, 0, 0, 2, -1}, pc{3, 0, 1, 4, 0})
+		pcs = append(pcs, pc{2, 2, 2, 2, -1}, pc{3, 1, 1, 1, -1}, pc{3, 3, 3, 3, -1}, pc{4, 0, 0, 0, -1}, pc{4, 0, 0, 2, -1}, pc{3, 0, 1, 4, 0})
 	}
 	for _, p := range pcs {
 		add(fmt.Sprintf("processor-w%d-c%d-b%d-n%d-e%d", p.w, p.c, p.b, p.n, p.e), processor(p.w, p.c, p.b, p.n, p.e))
@@ -270,6 +279,13 @@ func drivers(quick bool) []conc.Driver {
 				add(fmt.Sprintf("map-s%d-t%d-c%d", s, t, c), mapper(s, t, c))
 			}
 		}
+	}
+	add("promisemap-s0-t1-c1", mapDriver(0, 1, 1, true))
+	add("promisemap-s1-t2-c1", mapDriver(1, 2, 1, true))
+	if !quick {
+		add("promisemap-s2-t2-c1", mapDriver(2, 2, 1, true))
+		add("promisemap-s3-t2-c1", mapDriver(3, 2, 1, true))
+		add("promisemap-s3-t2-c2", mapDriver(3, 2, 2, true))
 	}
 	type pd struct{ pre, par []string }
 	pds := []pd{
